@@ -131,6 +131,22 @@ def do_import3(agent_dir, prop):
         print("imported", bid)
 
 
+def do_import4(agent_dir, area, prop):
+    """Round 4: out-<AREA>/ holds benign1..5.diff (property-preserving changes for one area of the code) and NOTES.md."""
+    for n in range(1, 10):
+        src = os.path.join(agent_dir, f"benign{n}.diff")
+        if not os.path.exists(src):
+            continue
+        bid = f"R4-{area}-b{n}"
+        d = os.path.join(BENIGN, bid)
+        os.makedirs(d, exist_ok=True)
+        shutil.copy(src, os.path.join(d, "patch.diff"))
+        if os.path.exists(os.path.join(agent_dir, "NOTES.md")):
+            shutil.copy(os.path.join(agent_dir, "NOTES.md"), os.path.join(d, "agent_notes.md"))
+        json.dump({"id": bid, "property": prop, "source": "round 4: aggressive property-preserving change written by an independent sub-agent that saw the property texts of its code area only"}, open(os.path.join(d, "meta.json"), "w"), indent=1)
+        print("imported", bid)
+
+
 def verify_benign(bid, tier, props=None):
     """The change applies, the suite passes, the agent's own property check passes with and without it - and then every
     listed check (default: all 20) must stay SILENT (exit 0) on the changed copy."""
@@ -157,8 +173,9 @@ def verify_benign(bid, tier, props=None):
         rc, out = sh([PY, "-m", "pytest", "-q", "-p", "no:cacheprovider", "-x"], cwd=mut, env=e0)
         meta["suite_passes_with_change"] = rc == 0
         meta["suite_tail"] = out.strip().splitlines()[-1] if out.strip() else ""
-        rc, out = sh([PY, os.path.join(d, "check.py")], cwd=mut, env=e0, timeout=1200)
-        meta["agent_check_passes_with_change"] = rc == 0
+        if os.path.exists(os.path.join(d, "check.py")):
+            rc, out = sh([PY, os.path.join(d, "check.py")], cwd=mut, env=e0, timeout=1200)
+            meta["agent_check_passes_with_change"] = rc == 0
         e = dict(os.environ)
         e.update(VF_REPO_SRC=os.path.join(mut, "src"), PYTHONPYCACHEPREFIX=os.path.join(scr, "pyc-check"), VF_EVIDENCE_DIR=os.path.join(scr, "evidence"), VF_REPLAY_DIR=os.path.join(scr, "replays"))
         e.pop("PYTHONPATH", None)
@@ -187,6 +204,9 @@ def main():
         return
     if sys.argv[1] == "import3":
         do_import3(sys.argv[2], sys.argv[3])
+        return
+    if sys.argv[1] == "import4":
+        do_import4(sys.argv[2], sys.argv[3], sys.argv[4])
         return
     if sys.argv[1] == "verify-benign":
         tier = "thorough" if "--thorough" in sys.argv else "quick"
